@@ -215,8 +215,49 @@ func init() {
 				}
 			})
 			famConfiguredPorts(c, eachState)
+			// Beyond the property's quantifier (which names parses, setters and resolutions): the routes that write the query back
+			// from the parameter list - SearchParams mutations and the canonicalization profiles over the default parser options.
+			// The write-back uses the query set for every scheme, so an apostrophe stays literal in a special URL's query
+			// (C04_searchparams_mutation_refuted); clause 10 is therefore evaluated with the set the write-back uses, all other
+			// clauses as they are.
+			writeBack := func(d *Driver, cs Case, f []string) {
+				r := coqPred(d, "INV", defaultCfg, f)
+				if r == "10" {
+					r = ""
+					for _, b := range []byte(f[fQuery]) {
+						if b < 0x21 || b > 0x7e || strings.IndexByte("\"#<>", b) >= 0 {
+							r = "10 (with the query set of the write-back)"
+						}
+					}
+				}
+				if r != "" {
+					c.Report(Finding{Class: "violation", What: "structural invariant / getter coherence clauses failing after a query write-back (Model/Preds.v inv_obs): " + r, Case: cs, Impl: strings.Join(f, " | ")})
+				}
+			}
+			famHist(c, defaultCfg, 6000*c.Scale, 6, "ppssr", false, allButVerrs, "setters+resolve+sp", func(d *Driver, hc histCase, h *implHist, steps []Step, start Obs) {
+				for k, s := range steps {
+					for _, f := range liveSlots(s) {
+						writeBack(d, hc.Case(k), f)
+					}
+				}
+			})
+			{
+				rng := NewRng(c.Seed ^ 0xc04)
+				profs := []*Prof{predefinedProfiles[0], predefinedProfiles[1], profFromDesc("sortParam"), profFromDesc("rmFrag+rmPort+rmUser+sortKeys"), profFromDesc("defHttp+sortKeys"), profFromDesc("repeated"), profFromDesc("repeated+sortParam")}
+				c.Pool.Run(6000*c.Scale, func(d *Driver, i int) {
+					r := rng.Fork(i)
+					pr := profs[i%len(profs)]
+					input := r.anyInput()
+					if r.Chance(1, 3) {
+						input = "http://h/p?" + r.query() + "&" + r.Pick(nonASCII) + "=" + r.Pick(nonASCII)
+					}
+					if o := c.cmpProf(d, pr, nil, input, allButVerrs, "profile-parse", i); o.Kind == "U" {
+						writeBack(d, Case{Kind: "cparse", Cfg: pr.Desc, Input: input, Family: "profile-parse", Index: i}, o.Fields)
+					}
+				})
+			}
 		},
-		rule: "parse results and every state of generated histories of setters and in-place resolutions, plus all single/pairs of edge setter calls on 58 start URLs, plus the bounded-exhaustive path-shape family (all sequences of up to 4 segments over {empty, ., .., a, %2e, %2E%2e, C|} x separators x 4 scheme classes x 4 endings, with and without base), under the default parser and under six option configurations that satisfy the theorem's side condition cfg_okm; the extracted Coq predicate inv_obs (16 clauses) is evaluated on the implementation's getter values with the configuration in force",
+		rule: "parse results and every state of generated histories of setters and in-place resolutions (and, beyond the property's quantifier, of SearchParams mutations and of what seven canonicalization profiles return, with clause 10 read with the set the query write-back uses), plus all single/pairs of edge setter calls on 58 start URLs, plus the bounded-exhaustive path-shape family (all sequences of up to 4 segments over {empty, ., .., a, %2e, %2E%2e, C|} x separators x 4 scheme classes x 4 endings, with and without base), under the default parser and under six option configurations that satisfy the theorem's side condition cfg_okm; the extracted Coq predicate inv_obs (16 clauses) is evaluated on the implementation's getter values with the configuration in force",
 	}
 
 	props["C19"] = &propDef{
